@@ -22,6 +22,7 @@ func init() {
 		e.RAddSurvives()
 		e.RDeclRemoval()
 		e.RGates()
+		e.RCgoBlock()
 		e.RImportRoles()
 		e.RDeadAppend()
 		e.RAliasFlow()
@@ -80,6 +81,7 @@ func init() {
 		e.RAddSurvives()
 		e.RDeclRemoval()
 		e.RGates()
+		e.RCgoBlock()
 		e.RImportRoles()
 		e.RAliasFlow()
 		e.RPackageNamesOwnership()
